@@ -487,6 +487,11 @@ func cmdSeqRun(args []string) int {
 		keyNames = []string{"/a", "/events/n/e1", "/events/n/e2", "/pods/events/p1"}
 		eventKeys = []int{2, 3}
 	}
+	if *keyset == "events2" {
+		// the non-event keys are siblings of the events directory whose names start with "events"
+		keyNames = []string{"/events.example.io/w0", "/events/n/e1", "/events/n/e2", "/eventsinks/s1"}
+		eventKeys = []int{2, 3}
+	}
 	names := strings.Split(*engine, ",")
 	engs := map[string]*kb.Engine{}
 	for _, n := range names {
